@@ -518,7 +518,12 @@ func genCompare(a *Args, rng *Rng) []caseSpec {
 		"1.0.0-beta.2.1", "1.0.0-beta.02", "1.0.0-BETA", "1.0.0-beta+11", "1.2.3.4", "1.0.0-\xc3\xa9", "1.0.0\n", "1.0.0-9", "1.0.0-10", "1.0.0-9a", "1.0.0-A", "1.0.0-a")
 	// every ordered pair of the valid ones; every invalid one against itself and a few valid ones
 	var valid, invalid []string
-	for _, v := range vs {
+	seen := map[string]bool{}
+	for _, v := range append(vs, nearMissVersions...) {
+		if seen[v] {
+			continue
+		}
+		seen[v] = true
 		if verifbridgeValid(v) {
 			valid = append(valid, v)
 		} else {
@@ -534,6 +539,16 @@ func genCompare(a *Args, rng *Rng) []caseSpec {
 		out = append(out, caseSpec{Cmp: &cmpSpec{V: v, W: v}})
 		for _, w := range []string{"1.0.0", valid[i%len(valid)], invalid[(i+1)%len(invalid)]} {
 			out = append(out, caseSpec{Cmp: &cmpSpec{V: v, W: w}}, caseSpec{Cmp: &cmpSpec{V: w, W: v}})
+		}
+	}
+	// the near-miss strings are not versions whatever the implementation says (judged on the Go side too)
+	isNear := map[string]bool{}
+	for _, v := range nearMissVersions {
+		isNear[v] = true
+	}
+	for i := range out {
+		if c := out[i].Cmp; c != nil && (isNear[c.V] || isNear[c.W]) {
+			c.Expect = "Err"
 		}
 	}
 	n := 1200
@@ -831,6 +846,99 @@ func genEdges(a *Args, rng *Rng) []caseSpec {
 	return out
 }
 
+// ---------- near-miss version strings (seed C20-5) ----------
+
+// Strings that look like versions but are not SemVer 2.0.0 (the last one is empty: metadata
+// with an empty version is invalid metadata). golang.org/x/mod/semver, Masterminds-style
+// "loose" parsers and strings.TrimSpace-ing validators accept several of them ("1", "1.1",
+// "2.0", "1.0" as shorthands; "v1.0.0"; surrounding blanks), so a validity check delegated to
+// such a library shows up here and nowhere else.
+var nearMissVersions = []string{"1.1", "1", "2.0", "v1.0.0", "1.0.0.0", "01.0.0", "1.0.0-", "1.0.0+", "1.0", " 1.0.0", "1.0.0 ", "1.0.0-01", "1.0.0-a..b", ""}
+
+// genNearMiss: every near-miss string in BOTH roles (version of the installed plugin, version
+// of the new plugin) of two-, three- and four-step install histories without overwrite on ONE
+// manager. What must happen is fixed by the property text (an invalid version is refused, the
+// root stays untouched, the next legitimate upgrade is judged against the untouched plugin) and
+// is written into every step (opSpec.Expect): the driver judges it on the Go side too.
+func genNearMiss(a *Args, rng *Rng) []caseSpec {
+	var out []caseSpec
+	bin := "notation-foo"
+	src := func(b *hb, k int, cid int) srcSpec {
+		switch k % 3 {
+		case 0:
+			return fileSrc(bin, 0o755, cid)
+		case 1:
+			return dirSrc("pkg", ef("LICENSE", 0o644, b.data("lic", 1)), ef("a.txt", 0o666, b.data("a", 2)),
+				ef(bin, 0o755, cid), ef("zlib.so", 0o777, b.data("z", 4)))
+		}
+		return dirSrc("src", ef(bin, 0o644, cid), ef("zz-notes.txt", 0o644, b.data("n", 1)))
+	}
+	// content answering with version v ("" = metadata with an empty version: malformed)
+	content := func(b *hb, v string, salt int) int {
+		if v == "" {
+			return b.cid(contentSpec{Kind: "malformed", Variant: "emptyver", Name: "foo", Version: "", Salt: salt})
+		}
+		return b.okSalt("foo", v, salt)
+	}
+	add := func(b *hb, s srcSpec, ow bool, expect string) {
+		b.install(s, ow)
+		b.h.Ops[len(b.h.Ops)-1].Expect = expect
+	}
+	for si, s := range nearMissVersions {
+		// role "new": a proper plugin is installed, the near-miss must be refused, the next upgrade accepted
+		for k, ex := range [][2]string{{"1.0.0", "1.0.5"}, {"1.1.0", "1.1.5"}, {"3.0.0", "3.0.5"}} {
+			b := newHB("nearmiss")
+			add(b, src(b, 0, content(b, ex[0], 0)), false, "ok:"+ex[0]+"|-")
+			refuse := "refuse:EVersion"
+			if s == "" {
+				refuse = "refuse:EMetaInvalid"
+			}
+			add(b, src(b, si+k, content(b, s, 1)), false, refuse)
+			add(b, src(b, si+k+1, content(b, ex[1], 2)), false, "ok:"+ex[1]+"|"+ex[0])
+			out = append(out, b.done())
+		}
+		// role "installed": the near-miss gets in by a fresh installation (no comparison happens),
+		// then every installation without overwrite must be refused until overwrite is set
+		for k, nw := range []string{"1.0.0", "3.0.0"} {
+			b := newHB("nearmiss")
+			if s == "" {
+				add(b, src(b, 0, content(b, s, 0)), false, "refuse:EMetaInvalid")
+				add(b, src(b, si+k, content(b, nw, 1)), false, "ok:"+nw+"|-")
+				add(b, src(b, si+k+1, content(b, s, 2)), false, "refuse:EMetaInvalid")
+				add(b, src(b, si+k+2, content(b, nw, 3)), true, "ok:"+nw+"|"+nw)
+			} else {
+				add(b, src(b, 0, content(b, s, 0)), false, "ok:"+s+"|-")
+				add(b, src(b, si+k, content(b, nw, 1)), false, "refuse:EVersion")
+				add(b, src(b, si+k+1, content(b, s, 2)), false, "refuse:EVersion")
+				add(b, src(b, si+k+2, content(b, nw, 3)), true, "ok:"+nw+"|"+s)
+			}
+			out = append(out, b.done())
+		}
+		// role "installed", the plugin being there before the manager is created
+		{
+			b := newHB("nearmiss")
+			b.init("foo", fileSpec{bin, 0o755, content(b, s, 0)}, fileSpec{"old.so", 0o644, b.data("old", 9)})
+			refuse, exv := "refuse:EVersion", s
+			if s == "" {
+				refuse, exv = "refuse:EExistMeta", "-"
+			}
+			add(b, src(b, si, content(b, "1.0.0", 1)), false, refuse)
+			add(b, src(b, si+1, content(b, "0.0.1", 2)), false, refuse)
+			add(b, src(b, si+2, content(b, "2.0.0", 3)), true, "ok:2.0.0|"+exv)
+			out = append(out, b.done())
+		}
+		// both roles at once (two steps): the next near-miss over this one
+		if s != "" {
+			t := nearMissVersions[(si+1)%(len(nearMissVersions)-1)]
+			b := newHB("nearmiss")
+			add(b, src(b, si, content(b, s, 0)), false, "ok:"+s+"|-")
+			add(b, src(b, si+1, content(b, t, 1)), false, "refuse:EVersion")
+			out = append(out, b.done())
+		}
+	}
+	return out
+}
+
 // ---------- corpus: regression inputs (JSON files holding a caseSpec) ----------
 
 func genCorpus(a *Args) []caseSpec {
@@ -871,6 +979,7 @@ func generate(a *Args) []caseSpec {
 		nrand = 6000
 	}
 	out = append(out, genRandom(a, rng.Fork(4), nrand)...)
+	out = append(out, genNearMiss(a, rng.Fork(9))...)
 	out = append(out, genCompare(a, rng.Fork(5))...)
 	return out
 }
